@@ -112,6 +112,8 @@ seed("C20", "interval-inclusive", "suppression also exactly at the interval boun
      (LL, "now.Sub(limiter.previousTime) < limiter.interval", "now.Sub(limiter.previousTime) <= limiter.interval"))
 seed("C20", "or-instead-of-and", "suppress on same message OR within interval", ["C20.G1"],
      (LL, "< limiter.interval && s == limiter.previousEntry", "< limiter.interval || s == limiter.previousEntry"))
+seed("C10", "cleanup-ignores-remove-error", "the start-up clean-up ignores a failing removal and carries on", ["C10.D5"],
+     ("cmd/thermal-recorder/cptvfilerecorder.go", "\t\t\tif err := os.Remove(filename); err != nil {\n\t\t\t\treturn err\n\t\t\t}", "\t\t\tos.Remove(filename)"))
 seed("C19", "slots-share-one-frame", "the constructor allocates one frame outside the filling loop and puts it into every slot", ["C19.Q2"],
      ("motion/frameloop.go", "\tfor i := range frames {\n\t\tframes[i] = cptvframe.NewFrame(camera)\n\t}", "\tblank := cptvframe.NewFrame(camera)\n\tfor i := range frames {\n\t\tframes[i] = blank\n\t}"))
 seed("C20", "direct-log-in-frame-path", "a per-frame message printed with log.Printf instead of through the limiter", ["C20.G1"],
